@@ -860,7 +860,10 @@ func (st *tunnelClientStream) finishStream(err error, trailers metadata.MD) bool
 	}
 	defer st.cancel()
 	st.ch.removeStream(st.streamID)
-	st.receiver.close()
+	// Close the receiver (which lets RecvMsg return the terminal result)
+	// only after the trailers below have been published, so that they are
+	// visible as soon as the caller has seen the RPC end.
+	defer st.receiver.close()
 
 	st.metaMu.Lock()
 	defer st.metaMu.Unlock()
